@@ -1,4 +1,6 @@
 import Proofs.Store.IavlMulti
+import Proofs.Store.IavlHeapAbs      -- stage B (heap level), added at the end of this file
+import Proofs.Store.IavlHeapCounter  -- stage B counterexamples
 /-!
 # C09 — Reads at a past height always see that height's committed state (stage A: pure model)
 
@@ -132,3 +134,143 @@ example : ((runEvents 2 evs).1.loadLazyVersion 1).isSome = true ∧ ((runEvents 
   decide
 
 end C09
+
+/-! # ===== stage B: the Go heap (aliasing, in-place mutation, node cache) =====
+
+Model: `PocketModel/Store/IavlHeap.lean` — an explicit heap of `Node` objects, the node DB and the
+LRU node cache, with `clone`, `recursiveSet`, `recursiveRemove`, `rotateLeft/Right`, `balance`,
+`calcHeightAndSize`, `hashWithCount`, `SaveBranch`/`SaveNode`, `GetNode`, `getLeftNode/getRightNode`
+and the reads, step by step as the Go code performs them.  `Rep H P st t a` ("object `a` represents
+the pure tree `t`", `Proofs/Store/IavlHeap.lean`) is the relational form of the abstraction function
+`abs`; `Own H sys T V` is the ownership/simulation invariant between the heap system and the pure
+versioned tree `T` of stage A / C03 together with the held view handles `V`.
+
+The hash function `H` is a parameter; its injectivity is an explicit hypothesis exactly where the DB
+is written (`SaveBranch`).  Everything is for the as-is clone discipline `Cfg.asIs`; the last two
+theorems show that it is needed. -/
+namespace C09
+open Iavl Iavl.Heap
+
+/-- **heap_refines_pure.** Under the ownership invariant every heap-level operation — `Set`,
+`Remove`, `SaveVersion`, `Rollback`, `WorkingHash`, `GetImmutable`, `LazyLoadVersion`, a read on the
+working tree, a read through a held view (lazy child loading through the node cache included) —
+succeeds (fuel above the tree depths), answers exactly what the pure model answers, and
+re-establishes the invariant for the pure model's next state. -/
+theorem heap_refines_pure (H : HashIn → Hash) (hinj : Function.Injective H) {sys : Sys} {T : Tree}
+    {V : List (Option Node)} (hown : Own H sys T V) (op : HOp) (fuel : Nat) (hfuel : Adequate fuel T V) :
+    ∃ sys', stepH H Cfg.asIs fuel sys op = some (sys', pureOut H T V op) ∧
+      Own H sys' (pureStep T op) (pureViews T V op) := by
+  obtain ⟨sys', e, ho, _, _⟩ := step_refines H hinj hown op fuel hfuel
+  exact ⟨sys', e, ho⟩
+
+/-- The same for whole histories from the empty tree, for every node-cache size: all answers are the
+pure model's, and the final heap owns the pure model's final state. -/
+theorem heap_history_refines_pure (H : HashIn → Hash) (hinj : Function.Injective H) (cacheSize fuel : Nat)
+    (ops : List HOp) (had : AdequateRun fuel Tree.empty [] ops) :
+    ∃ sys', runH H Cfg.asIs fuel { st := { cacheSize := cacheSize } } ops = some (sys', (pureRun H Tree.empty [] ops).2.2) ∧
+      Own H sys' (pureRun H Tree.empty [] ops).1 (pureRun H Tree.empty [] ops).2.1 := by
+  obtain ⟨sys', e, ho, _, _⟩ := run_refines H hinj fuel ops _ _ _ (Own.init H cacheSize) had
+  exact ⟨sys', e, ho⟩
+
+/-- **The write-once discipline** (what the run-time monitor `Driver/C09b.lean` checks on the real
+heap with the same decidable relation `cellLe`): along any history every object only evolves by
+`cellLe` — key, value, height, size, version never change; a persisted object never changes; a
+memoised hash stays; pointers are dropped only when the object becomes persisted — nothing is freed
+and the DB only grows. -/
+theorem heap_write_once (H : HashIn → Hash) (hinj : Function.Injective H) (fuel : Nat) (ops : List HOp)
+    {sys : Sys} {T : Tree} {V : List (Option Node)} (hown : Own H sys T V) (had : AdequateRun fuel T V ops) :
+    ∃ sys' outs, runH H Cfg.asIs fuel sys ops = some (sys', outs) ∧
+      (∀ (x : Addr) (c : Cell), sys.st.heap[x]? = some c → ∃ c', sys'.st.heap[x]? = some c' ∧ cellLe c c' = true) ∧
+      (∀ (x : Addr) (c : Cell), sys.st.heap[x]? = some c → c.persisted = true → sys'.st.heap[x]? = some c) ∧
+      (∀ k s, sys.st.db k = some s → sys'.st.db k = some s) := by
+  obtain ⟨sys', e, _, _, hg⟩ := run_refines H hinj fuel ops sys T V hown had
+  exact ⟨sys', _, e, hg.cells, fun x c hc hp => hg.persisted hc hp, hg.db⟩
+
+/-- **saved_roots_frozen_heap.** Take any history, stop anywhere, and pick *any* object that at that
+point represents a pure tree `t` (in particular the root object of a saved version, of `lastSaved`,
+or any handle a reader holds).  After any further operations the same object still represents `t`,
+and the abstraction function `abs` still returns `t`. -/
+theorem saved_roots_frozen_heap (H : HashIn → Hash) (hinj : Function.Injective H) (cacheSize fuel : Nat)
+    (ops1 ops2 : List HOp) (had : AdequateRun fuel Tree.empty [] (ops1 ++ ops2)) :
+    ∃ sys1 sys2 outs1 outs2,
+      runH H Cfg.asIs fuel { st := { cacheSize := cacheSize } } ops1 = some (sys1, outs1) ∧
+      runH H Cfg.asIs fuel sys1 ops2 = some (sys2, outs2) ∧
+      ∀ (P : Addr → Prop) (t : Node) (x : Addr), Rep H P sys1.st t x →
+        Rep H P sys2.st t x ∧ ∀ f, depth t < f → abs sys2.st f x = some t := by
+  obtain ⟨had1, had2⟩ := AdequateRun.append H had
+  obtain ⟨sys1, e1, ho1, _, _⟩ := run_refines H hinj fuel ops1 _ _ _ (Own.init H cacheSize) had1
+  obtain ⟨sys2, e2, _, hst, _⟩ := run_refines H hinj fuel ops2 sys1 _ _ ho1 had2
+  exact ⟨sys1, sys2, _, _, e1, e2, fun P t x hr => ⟨hst P t x hr, fun f hf => abs_of_rep H t x f hf (hst P t x hr)⟩⟩
+
+/-- **historical_read_stable_heap.** Open version `v` with `GetImmutable` after any history `ops1`,
+keep the handle across arbitrary later operations `ops2` (writes, commits, rollbacks, hashing, other
+views being opened and read), then read through it: the answer is the pure model's read of the tree
+saved as version `v` — the committed state (`C09.historical_read_is_committed_state`,
+`C03.ops_refine_map` give its map-level meaning). -/
+theorem historical_read_stable_heap (H : HashIn → Hash) (hinj : Function.Injective H) (cacheSize fuel : Nat)
+    (ops1 ops2 : List HOp) (v : Nat) (r : Read) (root : Option Node)
+    (hv : (pureRun H Tree.empty [] ops1).1.getImmutable v = some root)
+    (had : AdequateRun fuel Tree.empty []
+      (ops1 ++ [.getImmutable v] ++ ops2 ++ [.readView (pureRun H Tree.empty [] ops1).2.1.length r])) :
+    ∃ sys' outs,
+      runH H Cfg.asIs fuel { st := { cacheSize := cacheSize } }
+        (ops1 ++ [.getImmutable v] ++ ops2 ++ [.readView (pureRun H Tree.empty [] ops1).2.1.length r])
+        = some (sys', outs ++ [.read (some (readRoot root r))]) := by
+  obtain ⟨sys', e, _⟩ := heap_history_refines_pure H hinj cacheSize fuel _ had
+  -- the pure model's answers: views are only ever appended, so the handle's index still denotes `root`
+  have hV2 : (pureRun H Tree.empty [] (ops1 ++ [.getImmutable v])).2.1 = (pureRun H Tree.empty [] ops1).2.1 ++ [root] := by
+    rw [pureRun_append]; simp only [pureRun, pureViews, hv]
+  obtain ⟨more, hmore⟩ := pureRun_views_prefix H (pureRun H Tree.empty [] (ops1 ++ [.getImmutable v])).1
+    (pureRun H Tree.empty [] (ops1 ++ [.getImmutable v])).2.1 ops2
+  have hVA : (pureRun H Tree.empty [] (ops1 ++ [.getImmutable v] ++ ops2)).2.1 =
+      (pureRun H Tree.empty [] ops1).2.1 ++ [root] ++ more := by
+    rw [pureRun_append]; simp only []; rw [hmore, hV2]
+  have hget : ((pureRun H Tree.empty [] ops1).2.1 ++ [root] ++ more)[(pureRun H Tree.empty [] ops1).2.1.length]? = some root := by
+    rw [List.append_assoc, List.getElem?_append_right (Nat.le_refl _)]; simp
+  refine ⟨sys', (pureRun H Tree.empty [] (ops1 ++ [.getImmutable v] ++ ops2)).2.2, ?_⟩
+  rw [e, pureRun_append]
+  simp only [pureRun, pureOut, hVA, hget, Option.map_some]
+
+/-- **The clone discipline is necessary (1): rotation without clone** (`rotateLeft/rotateRight` no
+longer clone the node they are handed — seeded bug C03-a).  History: Set k3,k4,k1,k0,k2; SaveVersion;
+open version 1; Remove k3.  As is, iterating the held view gives the five keys before and after and
+no object breaks `cellLe`; in the mutated model the view loses `k2` and a *persisted* object was
+written in place. -/
+theorem clone_discipline_needed_rotation :
+    Counter.rotScenario Cfg.asIs = some (Counter.v1contents, Counter.v1contents, []) ∧
+    Counter.rotScenario { rotateClones := false } =
+      some (Counter.v1contents,
+            .range [(Counter.k0, [0]), (Counter.k1, [1]), (Counter.k3, [3]), (Counter.k4, [4])], [(13, true)]) :=
+  ⟨Counter.rot_asIs_ok, Counter.rot_without_clone_breaks_saved_version⟩
+
+/-- **The clone discipline is necessary (2): in-place update of never-persisted inner nodes**
+(seeded bug C04-a).  History: block 1 = k0,k1,k2; block 2 = k1:=11; reload version 1, replay block 2
+and re-commit (idempotent branch: the working tree now consists of unpersisted objects with
+memoised hashes); block 3 = k2:=22; commit.  As is, version 2 on disk is unchanged and version 3 has
+its own root hash; in the mutated model block 3 rewrites version 2's DB records (k2 = 22 in
+version 2) and version 3 reports version 2's root hash. -/
+theorem clone_discipline_needed_inplace :
+    Counter.inplaceScenario Cfg.asIs =
+      some ⟨some [(Counter.k0, [0]), (Counter.k1, [11]), (Counter.k2, [2])],
+            some [(Counter.k0, [0]), (Counter.k1, [11]), (Counter.k2, [2])], false⟩ ∧
+    Counter.inplaceScenario { setClonesDirty := false } =
+      some ⟨some [(Counter.k0, [0]), (Counter.k1, [11]), (Counter.k2, [2])],
+            some [(Counter.k0, [0]), (Counter.k1, [11]), (Counter.k2, [22])], true⟩ :=
+  ⟨Counter.inplace_asIs_ok, Counter.inplace_update_breaks_saved_version⟩
+
+/-! ## Non-vacuity (stage B) -/
+
+/-- The initial system satisfies the ownership invariant (every cache size), so the hypotheses of
+the stage-B theorems are met by every history from the empty tree. -/
+example (H : HashIn → Hash) : Own H { st := { cacheSize := 2 } } Tree.empty [] := Own.init H 2
+
+/-- A concrete history on the heap model with a concrete hash, node cache of size 2: two commits,
+a view of version 1 held across an overwrite, a removal and a commit, then read. -/
+example : (runH Counter.Hc Cfg.asIs 20 { st := { cacheSize := 2 } }
+      [.set [1] [10], .set [2] [20], .set [3] [30], .save, .getImmutable 1, .set [1] [11], .remove [2], .save,
+       .readView 0 (.get [1]), .readView 0 (.has [2]), .readWorking (.get [1]), .readWorking (.has [2])]).map (·.2.drop 8) =
+    some [.read (some (.get 0 (some [10]))), .read (some (.has true)),
+          .read (some (.get 0 (some [11]))), .read (some (.has false))] := by decide
+
+end C09
+
